@@ -104,4 +104,9 @@ Lemma bridge_shift_ctr lx ly xm ym xmx ymx :
   gen_shift_ctr O lx ly xm ym xmx ymx = cis O (shift_arg_ctr O lx ly xm ym xmx ymx).
 Proof. reflexivity. Qed.
 
+(* the re-centring shift is applied exactly when 0 < xm^2 + ym^2 *)
+Lemma bridge_recentre_guard xm ym :
+  gen_recentre_guard O xm ym = cltb O 0 (xm * xm + ym * ym).
+Proof. unfold gen_recentre_guard. rewrite (L_ofZ_0 O L). reflexivity. Qed.
+
 End Bridge.
